@@ -48,6 +48,143 @@ theorem trunk_eq_components (E : Env) (hsym : ∀ x y, y ∈ E.nbrs x → x ∈ 
       · rw [e]; exact hct'
       · exact absurd hn (hclosed t ht t' ht' e b ih c hct')
 
+/-! ## C. save / load at the model level -/
+
+theorem regroupT_id (lm : List (Option Nat)) (t : Tree) : (regroupT lm t).id = t.id := by
+  cases t; simp [regroupT, Tree.id]
+
+theorem regroupT_own (lm : List (Option Nat)) (t : Tree) : (regroupT lm t).own = binOf lm t.id := by
+  cases t; simp [regroupT, Tree.id, Tree.own]
+
+theorem regroupT_kids (lm : List (Option Nat)) (t : Tree) :
+    (regroupT lm t).kids = regroupL lm t.kids := by
+  cases t; simp [regroupT, Tree.kids]
+
+theorem regroupL_eq_map (lm : List (Option Nat)) (l : List Tree) :
+    regroupL lm l = l.map (regroupT lm) := by
+  induction l with
+  | nil => simp [regroupL]
+  | cons t ts ih => simp [regroupL, ih]
+
+/-- loading rebuilds the structures one by one, in iteration order -/
+theorem pre_regroup (lm : List (Option Nat)) :
+    (∀ t : Tree, pre (regroupT lm t) = (pre t).map (regroupT lm)) ∧
+    (∀ l : List Tree, preL (regroupL lm l) = (preL l).map (regroupT lm)) := by
+  apply Tree.forest_induction
+  · intro i o ks ih
+    simp only [regroupT, pre, List.map_cons, ih]
+  · simp [regroupL, preL]
+  · intro t ts iht ihts
+    simp only [regroupL, preL, List.map_append, iht, ihts]
+
+theorem preL_regroupL (lm : List (Option Nat)) (l : List Tree) :
+    preL (regroupL lm l) = (preL l).map (regroupT lm) := (pre_regroup lm).2 l
+
+/-- regrouping twice with the same label map is regrouping once -/
+theorem regroup_idem (lm lm' : List (Option Nat)) :
+    (∀ t : Tree, regroupT lm (regroupT lm' t) = regroupT lm t) ∧
+    (∀ l : List Tree, regroupL lm (regroupL lm' l) = regroupL lm l) := by
+  apply Tree.forest_induction
+  · intro i o ks ih
+    simp only [regroupT, ih]
+  · simp [regroupL]
+  · intro t ts iht ihts
+    simp only [regroupL, iht, ihts]
+
+/-- identifiers, children and their ORDER, and the iteration order are preserved exactly -/
+theorem reload_shape (f : List Tree) (n : Nat) :
+    (Tree.preL (reload f n)).map (fun t => (t.id, t.kids.map Tree.id))
+      = (Tree.preL f).map (fun t => (t.id, t.kids.map Tree.id)) := by
+  unfold reload
+  rw [preL_regroupL, List.map_map]
+  apply List.map_congr_left
+  intro t _
+  simp only [Function.comp_def, regroupT_id, regroupT_kids, regroupL_eq_map, List.map_map]
+
+theorem reload_ids (f : List Tree) (n : Nat) :
+    (Tree.preL (reload f n)).map Tree.id = (Tree.preL f).map Tree.id := by
+  unfold reload
+  rw [preL_regroupL, List.map_map]
+  apply List.map_congr_left
+  intro t _
+  simp [regroupT_id]
+
+theorem regroup_sim (lm : List (Option Nat)) :
+    (∀ t : Tree, (∀ s ∈ pre t, (binOf lm s.id).Perm s.own) →
+        P10.Sim (fun p => p) t (regroupT lm t)) ∧
+    (∀ l : List Tree, (∀ s ∈ preL l, (binOf lm s.id).Perm s.own) →
+        P10.SimL (fun p => p) l (regroupL lm l)) := by
+  apply Tree.forest_induction
+  · intro i o ks ih h
+    rw [regroupT]
+    refine .mk ?_ (ih ?_)
+    · simpa [Tree.id, Tree.own] using h (node i o ks) (mem_pre_self _)
+    · intro s hs
+      exact h s (by rw [pre]; exact List.mem_cons_of_mem _ hs)
+  · intro _; rw [regroupL]; exact .nil
+  · intro t ts iht ihts h
+    rw [regroupL]
+    refine .cons (iht ?_) (ihts ?_) (List.Perm.refl _)
+    · intro s hs; exact h s (by rw [preL]; exact List.mem_append_left _ hs)
+    · intro s hs; exact h s (by rw [preL]; exact List.mem_append_right _ hs)
+
+/-- same hierarchy: regions, own pixel sets, parent relation -/
+theorem reload_sim (f : List Tree) (n : Nat) (h : P8.WF f n) :
+    P10.SimL (fun p => p) f (reload f n) :=
+  (regroup_sim (labelMap f n)).2 f (fun s hs => P8.binOf_perm f n h s hs)
+
+/-- own pixels of the k-th structure (iteration order): same set, possibly another order -/
+theorem reload_own (f : List Tree) (n : Nat) (h : P8.WF f n) :
+    ∀ k, k < (Tree.preL f).length →
+      ((Tree.preL (reload f n)).getD k default).own.Perm ((Tree.preL f).getD k default).own := by
+  intro k hk
+  unfold reload
+  rw [preL_regroupL]
+  simp only [List.getD_eq_getElem?_getD, List.getElem?_map, List.getElem?_eq_getElem hk,
+    Option.map_some, Option.getD_some, regroupT_own]
+  exact P8.binOf_perm f n h _ (List.getElem_mem hk)
+
+theorem reload_wf (f : List Tree) (n : Nat) (h : P8.WF f n) : P8.WF (reload f n) n := by
+  have hp : (pixelsL (reload f n)).Perm (pixelsL f) := by
+    simpa using (reload_sim f n h).pixelsL
+  refine ⟨?_, hp.nodup_iff.mpr h.2.1, ?_⟩
+  · rw [reload_ids]; exact h.1
+  · intro p hp'; exact h.2.2 p (hp.mem_iff.mp hp')
+
+theorem reload_labelOf (f : List Tree) (n : Nat) (h : P8.WF f n) (p : Nat) :
+    labelOf (reload f n) p = labelOf f p := by
+  apply Option.ext
+  intro i
+  rw [P8.labelOf_iff _ n (reload_wf f n h), P8.labelOf_iff f n h]
+  unfold reload
+  rw [preL_regroupL]
+  constructor
+  · rintro ⟨t', ht', hid, hp⟩
+    obtain ⟨t, ht, rfl⟩ := List.mem_map.mp ht'
+    rw [regroupT_id] at hid
+    rw [regroupT_own] at hp
+    exact ⟨t, ht, hid, (P8.binOf_perm f n h t ht).mem_iff.mp hp⟩
+  · rintro ⟨t, ht, hid, hp⟩
+    refine ⟨regroupT _ t, List.mem_map_of_mem ht, by rw [regroupT_id]; exact hid, ?_⟩
+    rw [regroupT_own]
+    exact (P8.binOf_perm f n h t ht).mem_iff.mpr hp
+
+/-- the label map written by a second save is the one that was loaded -/
+theorem reload_labelMap (f : List Tree) (n : Nat) (h : P8.WF f n) :
+    labelMap (reload f n) n = labelMap f n := by
+  unfold labelMap
+  apply List.map_congr_left
+  intro p _
+  exact reload_labelOf f n h p
+
+/-- a second save / load cycle changes nothing at all -/
+theorem reload_idem (f : List Tree) (n : Nat) (h : P8.WF f n) :
+    reload (reload f n) n = reload f n := by
+  have e := reload_labelMap f n h
+  unfold reload at e ⊢
+  rw [e]
+  exact (regroup_idem _ _).2 f
+
 /-! ## D. catalog rows -/
 
 section Catalog
